@@ -23,5 +23,6 @@ ocamlfind ocamlopt -O3 -w -a -package str model.mli model.ml sx.ml sxlib_*.ml gl
   || ocamlfind ocamlopt -w -a -package str model.mli model.ml sx.ml sxlib_*.ml glue_*.ml main.ml -o ../build/driver 2> ../build/ocaml.log \
   || { echo "SETUP: driver build failed"; cat ../build/ocaml.log; exit 1; }
 cd "$ROOT"
+python3 tools/check_clashes.py || { echo "SETUP: extraction name clash used by glue code (rename in the Coq source)"; exit 1; }
 if [ $RC -ne 0 ]; then echo "SETUP: coq build had errors"; grep -B2 -A12 'Error' build/make.log | head -60; exit 1; fi
 echo "SETUP: ok"
